@@ -22,7 +22,7 @@ import operator
 
 import z3
 
-from .sym import (Sym, SInt, SBool, SReal, SBuf, SOpaque, SIPStr, Blob, Unsupported, Infeasible, tz_of,
+from .sym import (Sym, SInt, SBool, SReal, SBuf, SOpaque, SIPStr, SDecStr, Blob, Unsupported, Infeasible, tz_of,
                   mk_int, mk_bool, mk_real, int_term, real_term, bool_term, is_sym,
                   is_intlike, is_reallike, bits_of, int_bitop, py_floordiv_term, py_mod_term,
                   buf_of, is_buflike, _mask_upto)
@@ -168,7 +168,7 @@ def pytype_of(v):
         return bytearray if v.mutable else bytes
     if isinstance(v, SOpaque):
         return v.pytype
-    if isinstance(v, SIPStr):
+    if isinstance(v, (SIPStr, SDecStr)):
         return str
     return type(v)
 
@@ -254,7 +254,7 @@ class Interp(object):
             if isinstance(n, int):
                 return n != 0
             return mk_bool(z3.simplify(n != 0))
-        if isinstance(v, SIPStr):
+        if isinstance(v, (SIPStr, SDecStr)):
             return True
         if isinstance(v, SOpaque):
             raise Unsupported("truth value of opaque value")
@@ -288,6 +288,12 @@ class Interp(object):
                 if ba is None or bb is None:
                     return False
                 return bufops.equal(self.ctx, ba, bb)
+            if isinstance(a, SDecStr) or isinstance(b, SDecStr):
+                va = a.value if isinstance(a, SDecStr) else (int(a) if isinstance(a, str) and a.isdigit() and (a == '0' or not a.startswith('0')) else None)
+                vb = b.value if isinstance(b, SDecStr) else (int(b) if isinstance(b, str) and b.isdigit() and (b == '0' or not b.startswith('0')) else None)
+                if va is None or vb is None:
+                    return False
+                return self.eq(va, vb)
             if isinstance(a, SIPStr) or isinstance(b, SIPStr):
                 oa = a.octets if isinstance(a, SIPStr) else self.models.ip_octets(b)
                 ob = b.octets if isinstance(b, SIPStr) else self.models.ip_octets(a)
@@ -460,6 +466,15 @@ class Interp(object):
                 if ba_ is not None:
                     bits = bits & _mask_upto(ba_)
             return mk_int(z3.simplify(py_mod_term(ta, tb)), bits)
+        if isinstance(op, (ast.LShift, ast.RShift)) and not isinstance(b, int):
+            if int_term(b) is not None and self.ctx.decide(int_term(b) < 0):
+                raise PyRaise(ValueError("negative shift count"))
+            b = self.concrete_int(b, 64)
+            if isinstance(a, int):
+                return (a << b) if isinstance(op, ast.LShift) else (a >> b)
+            r = bitfield.try_binop('<<' if isinstance(op, ast.LShift) else '>>', a, b)
+            if r is not None:
+                return r
         if isinstance(op, ast.LShift):
             if not isinstance(b, int):
                 raise Unsupported("shift by symbolic amount")
